@@ -779,3 +779,11 @@ func (c *Cluster) PartitionUnlocked(topic string, id int32) *Partition {
 }
 
 func (c *Cluster) BrokerUnlocked(id int32) *Broker { return c.brokers[id] }
+
+// DeleteTopic removes a topic (as a DeleteTopics request to the controller would).
+func (c *Cluster) DeleteTopic(name string) {
+	c.mu.Lock()
+	defer c.mu.Unlock()
+	delete(c.topics, name)
+	c.notifyLocked()
+}
